@@ -560,6 +560,9 @@ func execCompat(t *testing.T, plan any, out *Outcome) {
 func userCmdsByConn(w *fakeredis.World) map[int][]*fakeredis.Exec {
 	m := map[int][]*fakeredis.Exec{}
 	for _, ex := range w.Log {
+		if ex.InExec {
+			continue // the model logs queued commands a second time when EXEC runs them: not on the wire
+		}
 		m[ex.Conn] = append(m[ex.Conn], ex)
 	}
 	return m
@@ -631,11 +634,13 @@ func checkCompat(e *simEnv, p *CompatPlan) {
 			ctxEnded := c.TimeoutMs > 0
 			if len(pos) == 0 {
 				// nothing reached the server: only acceptable when the call's context ended or a fault hit
-				if ctxEnded || faulty {
+				if ctxEnded || faulty || res.ExecErr != "" {
+					// Exec reported a failure (its own context, a connection another caller's deadline closed, a dial
+					// time-out): nothing was claimed to have run
 					out.notJudged("batch-not-sent")
 					continue
 				}
-				out.violate("C41", "batch-lost", "%s: no command of the batch reached the server, results %v", where, res.Errs)
+				out.violate("C41", "batch-lost", "%s: Exec reported success but no command of the batch reached the server, results %v", where, res.Errs)
 				continue
 			}
 			if len(pos) > 1 && !faulty {
@@ -720,7 +725,7 @@ func renderReply(method string, v resp.Value) (string, string) {
 		return "string:" + v.S, ""
 	case "Get":
 		if (v.T == '_' || v.Null) {
-			return "string:", "redis: nil"
+			return "string:", "redis nil message"
 		}
 		return "string:" + v.S, ""
 	case "Incr", "HSet", "RPush":
@@ -777,6 +782,18 @@ func checkCompatReal(e *simEnv, p *CompatPlan, where string, c CompatCall, res *
 	}
 	ok := true
 	firstErr := ""
+	for i := 0; i < n; i++ {
+		if _, wantErr := renderReply(res.Queued[i], replies[i]); wantErr != "" {
+			firstErr = wantErr
+			break
+		}
+	}
+	if lenient && res.ExecErr != "" && res.ExecErr != firstErr {
+		// the server ran the batch but the call ended first (its deadline, an injected fault): Exec reported that
+		out.notJudged("exec-failed-loudly")
+		return
+	}
+	firstErr = ""
 	for i := 0; i < n; i++ {
 		wantVal, wantErr := renderReply(res.Queued[i], replies[i])
 		if firstErr == "" {
